@@ -320,12 +320,53 @@ def run(ctx):
     # ---- old-style glue: corpus replay, correspondence with the translated functions, class-level oracle
     c02_oldstyle.stage(ctx, reg, keys, text=otext)
     c02_packers.stage(ctx, text=ptext)
+    _dataclass_inheritance(ctx, ser)
     ctx.coverage["rule"] = ("every registry entry x generated legal values (boundary integers, empty/maximal byte strings, IPv4/IPv6/"
                             "domain addresses, all-bit patterns) packed and unpacked at random offsets between random bytes; every "
                             "shipped Serializable class x generated instances, plain, nested and listed; non-trivial = non-empty encoding; "
                             "distinct by (format or class, value/bytes); every shipped old-style class x generated constructor "
                             "arguments: constructor, to_pack_list, from_unpack_list, encode/decode at offsets against the "
                             "translated Gallina functions")
+
+
+def _dataclass_inheritance(ctx, ser):
+    """dataclass payloads that extend other dataclass payloads (user-level definitions; both instantiation orders):
+    the child's own fields must be on the wire and come back, also nested and listed"""
+    import dataclasses
+    import typing
+    from ipv8.messaging.lazy_payload import VariablePayload
+    from ipv8.messaging.payload_dataclass import DataClassPayload
+    for order in ("parent-first", "child-first"):
+        tag = order.replace("-", "_")
+        parent = dataclasses.dataclass(type("InhParent_" + tag, (DataClassPayload,), {"__annotations__": {"a": int}, "__module__": __name__}))
+        child = dataclasses.dataclass(type("InhChild_" + tag, (parent,), {"__annotations__": {"b": bytes, "c": bool}, "__module__": __name__}))
+        grand = dataclasses.dataclass(type("InhGrand_" + tag, (child,), {"__annotations__": {"d": str}, "__module__": __name__}))
+        case = {"kind": "dataclass-inheritance", "order": order}
+        ctx.count(("dc-inherit", order), nontrivial=True)
+        try:
+            if order == "parent-first":
+                parent(1)
+            c = child(2 ** 63 - 1, b"abc", True)
+            if order == "child-first":
+                parent(1)
+            g = grand(5, b"", False, "h\u00e9")
+            holder = type("InhHolder_" + tag, (VariablePayload,), {"format_list": [child, [child], "H"], "names": ["one", "many", "tail"]})
+            for inst, cls, want in ((c, child, [("a", 2 ** 63 - 1), ("b", b"abc"), ("c", True)]),
+                                    (g, grand, [("a", 5), ("b", b""), ("c", False), ("d", "h\u00e9")])):
+                bs = ser.pack_serializable(inst)
+                back, off = ser.unpack_serializable(cls, b"\x00" * 3 + bs + b"\xff", 3)
+                got = [(n, getattr(back, n, "<missing>")) for n, _ in want]
+                if type(back) is not cls or got != want or off != 3 + len(bs):
+                    ctx.violation("dataclass-inheritance/fields-lost", "%s (%s): encoded to %d bytes, decodes to %s with %r, expected %r" % (
+                        cls.__name__, order, len(bs), type(back).__name__, got, want), case)
+            h = holder(c, [c, child(7, b"x", False)], 513)
+            bs = ser.pack_serializable(h)
+            back, off = ser.unpack_serializable(holder, bs)
+            flat = [(back.one.a, back.one.b, back.one.c)] + [(x.a, x.b, x.c) for x in back.many] + [back.tail]
+            if flat != [(2 ** 63 - 1, b"abc", True), (2 ** 63 - 1, b"abc", True), (7, b"x", False), 513] or off != len(bs):
+                ctx.violation("dataclass-inheritance/nested-fields-lost", "nested / listed child payloads come back as %r" % (flat,), case)
+        except Exception as e:   # noqa
+            ctx.violation("dataclass-inheritance/raises", "%s: %s (%s)" % (type(e).__name__, str(e)[:120], order), case)
 
 
 def _repack_value(d, got, gen_class):
@@ -389,7 +430,10 @@ def replay(path):
     for v in js.get("violations", []):
         c = v["case"]
         print(v["key"], "::", v["what"])
-        if c.get("kind") == "oldstyle":
+        if c.get("kind") == "dataclass-inheritance":
+            print("  dataclass payload extending a dataclass payload, instantiation order:", c["order"])
+            rc = 1
+        elif c.get("kind") == "oldstyle":
             rc |= c02_oldstyle.replay_case(c, ser)
         elif c.get("kind") in ("packer-unpack", "packer-pack", "packer-roundtrip", "serializer"):
             from tools.checks import c02_packers
